@@ -1094,13 +1094,13 @@ private:
                     miss = 0;
                     auto bmin = bigmin(*it, zmin, zmax);
                     auto range = super->pgm.search(bmin);
-                    it = std::upper_bound(super->data.begin() + range.lo, super->data.begin() + range.hi, bmin);
+                    it = std::lower_bound(super->data.begin() + range.lo, super->data.begin() + range.hi, bmin);
                     --it;
                 }
                 ++it;
             }
 
-            if (*it > zmax)
+            if (it != super->data.end() && *it > zmax)
                 it = super->data.end();
         }
 
